@@ -117,32 +117,14 @@ def impl(url, quoted, sf, dp="https"):
 
 
 # ---------------------------------------------------------------------------------------
-# the laws the theorems assume of attempt_to_decode_idna, on the real codec
+# the laws the theorems assume of the label decoder, on the real one: harness/punylaws.py
 # ---------------------------------------------------------------------------------------
-def _is_control(c):
-    o = ord(c)
-    return o <= 0x1F or 0x7F <= o <= 0x9F
+def puny_laws_failure(table, groups=None):
+    """PunyLaws (no_dot, stable), PunyClean (clean, nonempty) and IdnaLaws (same_name, ace_lower)
+    on every label the real decoder decoded for this case (shared: punylaws.failure)"""
+    import punylaws
 
-
-def puny_laws_failure(table):
-    """PunyLaws (no_dot, stable) of Lemmas/Canonicalize.lean and PunyClean (the decoder brings
-    in no delimiter, '%', control or white-space character that its input did not hold, and
-    decodes no label to the empty string) of Lemmas/CanonRoundTrip.lean, on every label the
-    real codec decoded for this case"""
-    from ural.utils import attempt_to_decode_idna as puny
-
-    for k, d in table.items():
-        if "." in d and "." not in k:
-            return "PunyLaws.no_dot fails for the real codec: %r -> %r" % (k, d)
-        ld = _ascii_lower(d)
-        if ld[:4] == "xn--" and _ascii_lower(puny(ld)) != ld:
-            return "PunyLaws.stable fails for the real codec: %r -> %r -> %r" % (k, d, puny(ld))
-        for c in d:
-            if (c in "/?#@:[]%" or _is_control(c) or c.isspace()) and c not in k:
-                return "PunyClean fails for the real codec: %r -> %r brings in %r" % (k, d, c)
-        if k and not d:
-            return "PunyClean.nonempty fails for the real codec: %r -> ''" % (k,)
-    return None
+    return punylaws.failure(table, groups or punylaws.GROUPS)
 
 
 # ---------------------------------------------------------------------------------------
